@@ -567,6 +567,8 @@ def plan (S : Sig) (n : Nat) (bv : String) (bty ty : Ty) (rows : List (Row β)) 
     match findEnum S name with
     | none => .error (.panic "Enum not found")
     | some d =>
+      -- the Rust indexes `cases[idx]` for the pattern of row 0: with no variants that panics
+      if d.variants.isEmpty then .error (.panic "index out of bounds: enum without variants") else
       let hs := enumHeads S.gen name (d.generics.zip targs) n 0 d.variants
       match enumSubs bv d.variants.length rows hs.1 0 with
       | .error e => .error e
